@@ -82,4 +82,6 @@ def check(rep, F, tier, replay=None):
             rep.floor("Break tests in collection readers", 40, n_b)
     from ruleutil import close_len_rule
     close_len_rule(rep, F)
+    from ruleutil import dup_key_rule
+    dup_key_rule(rep, F)
     return rep.finish(EXPLANATION, ASSUMPTIONS, TRUSTED)
